@@ -10,7 +10,53 @@ pub fn lanes() -> Vec<Lane> {
     vec![
         Lane { name: "documents", count: |c| DOCS.len() as u64 * if c.thorough() { 60_000 } else { 15_000 }, run: documents_lane },
         Lane { name: "invalid", count: |c| DOCS.len() as u64 * if c.thorough() { 20_000 } else { 5_000 }, run: invalid_lane },
+        Lane { name: "list-items", count: |c| if c.thorough() { 100_000 } else { 10_000 }, run: list_items_lane },
     ]
+}
+
+/// Item lists looked at as values, not through their printed form (where an empty item is invisible): the
+/// `Package-List` of a Sources stanza carries exactly the lines the lossless reader shows, in both usual layouts,
+/// and any list, the empty one included, survives value -> paragraph -> value on both back-ends.
+fn list_items_lane(ctx: &mut Ctx, _idx: u64) {
+    use deb822_lossless::{FromDeb822Paragraph, ToDeb822Paragraph};
+    use debian_control::lossy::apt::Source;
+    let mut r = ctx.rng();
+    let d = DOCS.iter().find(|d| d.name == "control::lossy::apt::Source").unwrap();
+    let g = gen_document(&mut r, d);
+    let n = r.below(4);
+    let new_list: Vec<String> = (0..n).map(|i| format!("pkg{} deb utils optional", i)).collect();
+    let res = guard(g.text.len() * 4 + 4096, || {
+        let v = Source::from_str(&g.text)?;
+        let shown = deb822_lossless::Deb822::from_str(&g.text).map_err(|e| e.to_string())?.paragraphs().next().and_then(|p| p.get("Package-List")).unwrap_or_default();
+        let mut w = v.clone();
+        w.package_list = new_list.clone();
+        let lossy_p: deb822_lossless::lossy::Paragraph = w.to_paragraph();
+        let lossless_p: deb822_lossless::Paragraph = w.to_paragraph();
+        let back_lossy = <Source as FromDeb822Paragraph<deb822_lossless::lossy::Paragraph>>::from_paragraph(&lossy_p).map(|x| x.package_list);
+        let back_lossless = <Source as FromDeb822Paragraph<deb822_lossless::Paragraph>>::from_paragraph(&lossless_p).map(|x| x.package_list);
+        Ok::<_, String>((v.package_list, shown, back_lossy, back_lossless))
+    });
+    match res {
+        Err(f) => ctx.violation(&format!("{}|control::lossy::apt::Source|list-items", f.class()), json!({"input": clip(&g.text), "failure": f.json()})),
+        Ok(Err(e)) => ctx.violation("wellformed-document-rejected|control::lossy::apt::Source|list-items", json!({"input": clip(&g.text), "error": e})),
+        Ok(Ok((items, shown, bl, bll))) => {
+            let want = norm_value(&shown);
+            if items != want {
+                ctx.violation("list-differs-from-lossless-view|control::lossy::apt::Source|Package-List", json!({"input": clip(&g.text), "typed": items, "lossless": want}));
+                return;
+            }
+            for (who, b) in [("lossy", bl), ("lossless", bll)] {
+                if b.as_ref() != Ok(&new_list) {
+                    ctx.violation(&format!("list-roundtrip-unequal|control::lossy::apt::Source|Package-List:{}:{}", who, if new_list.is_empty() { "empty" } else { "items" }), json!({"set": new_list, "read_back": format!("{:?}", b)}));
+                    return;
+                }
+            }
+            ctx.count(if g.text.contains("Package-List:\n") { "layout:next-line" } else { "layout:same-line" });
+            ctx.count(&format!("set-items:{}", new_list.len()));
+            ctx.nontrivial(format!("{}|{}", n, g.text).as_bytes());
+            ctx.sample(|| json!({"input": clip(&g.text), "items": want, "set": new_list}));
+        }
+    }
 }
 
 type Views = Vec<Vec<(String, String)>>;
@@ -83,6 +129,8 @@ static DOCS: [DocKind; 9] = [
 ];
 
 /// write a paragraph: one "Name: value" per pair, continuation lines indented by one blank
+const NEXT_LINE_FIELDS: [&str; 10] = ["Package-List", "Files", "Checksums-Sha1", "Checksums-Sha256", "Checksums-Sha512", "MD5Sum", "SHA1", "SHA256", "SHA512", "Binary"];
+
 fn write_para(r: &mut Rng, pairs: &[(String, String)], comments: bool, out: &mut String) {
     for (k, v) in pairs {
         // (a copyright file must start with its Format field: no comment in front of the very first line)
@@ -92,6 +140,16 @@ fn write_para(r: &mut Rng, pairs: &[(String, String)], comments: bool, out: &mut
         out.push_str(k);
         out.push(':');
         let mut lines = v.split('\n');
+        // list-valued fields are usually laid out one item per line, starting on the line after the name
+        if NEXT_LINE_FIELDS.contains(&k.as_str()) && !v.is_empty() && r.chance(1, 3) {
+            out.push('\n');
+            for l in lines {
+                out.push(' ');
+                out.push_str(l);
+                out.push('\n');
+            }
+            continue;
+        }
         let first = lines.next().unwrap_or("");
         if !first.is_empty() {
             out.push_str(r.pick_s(&[" ", " ", "  ", "\t"]));
@@ -118,9 +176,14 @@ fn gen_document(r: &mut Rng, d: &DocKind) -> GenDoc {
         for _ in 0..r.range(*lo, *hi) {
             let mut pairs = typed::gen_pairs(r, *k);
             if pairs.is_empty() {
-                // every field of this kind is optional: a paragraph still needs one
-                let f = &KINDS[*k].fields[r.below(KINDS[*k].fields.len())];
-                pairs.push((f.name.to_string(), r.pick_s(f.values).to_string()));
+                // every field of this kind is optional: a paragraph still needs one line, either a field of the
+                // kind or only fields the type does not model (the value then carries nothing at all)
+                if r.chance(1, 3) {
+                    pairs.push(("Bug-Ubuntu".to_string(), "https://bugs.launchpad.net/bugs/123456".to_string()));
+                } else {
+                    let f = &KINDS[*k].fields[r.below(KINDS[*k].fields.len())];
+                    pairs.push((f.name.to_string(), r.pick_s(f.values).to_string()));
+                }
             }
             paras.push((*k, pairs));
         }
@@ -241,7 +304,8 @@ fn documents_lane(ctx: &mut Ctx, idx: u64) {
             .map(|(k, v)| {
                 // DEP-3 spelling fallbacks are documented readings of From/Subject
                 let k = if d.name.contains("PatchHeader") { match k.as_str() { "From" => "Author".to_string(), "Subject" => "Description".to_string(), _ => k.clone() } } else { k.clone() };
-                (k, norm_value(v))
+                let v = typed::canon_text(KINDS[kind].name, &k, v);
+                (k, norm_value(&v))
             })
             .filter(|(k, _)| known.contains(&k.as_str()))
             .collect();
